@@ -119,6 +119,14 @@ pub(crate) fn without_terminator(
     bytes: &[u8],
     line_term: LineTerminator,
 ) -> &[u8] {
+    // When the line terminator is CRLF, a lone `\n` also terminates a line
+    // (see `LineTerminator::is_suffix`), so it must be stripped as well.
+    if line_term.is_crlf()
+        && bytes.last() == Some(&b'\n')
+        && !bytes.ends_with(b"\r\n")
+    {
+        return &bytes[..bytes.len() - 1];
+    }
     let line_term = line_term.as_bytes();
     let start = bytes.len().saturating_sub(line_term.len());
     if bytes.get(start..) == Some(line_term) {
